@@ -35,6 +35,11 @@ trait Obj {
     /// leave the structure in whatever state an operation that panics half-way leaves it in
     /// (default: nothing to do)
     fn poison(&mut self) {}
+    /// false if the constructor used by `build` does not produce the state clear() leads to
+    /// (a CMSHeap created on a sketch that has already counted data)
+    fn fresh_comparable(&self) -> bool {
+        true
+    }
 }
 
 fn key(u: &[u64], w: u64) -> u64 {
@@ -389,10 +394,14 @@ struct HeapObj {
     h: CMSHeap<u64>,
     u: Rc<Vec<u64>>,
     k: usize,
+    warm: bool,
 }
 impl Obj for HeapObj {
     fn name(&self) -> String {
-        format!("cmsheap(k={})", self.k)
+        format!("cmsheap(k={}{})", self.k, if self.warm { ",created on a warm sketch" } else { "" })
+    }
+    fn fresh_comparable(&self) -> bool {
+        !self.warm
     }
     fn apply(&mut self, w: u64) -> u64 {
         self.h.add(key(&self.u, w));
@@ -503,7 +512,18 @@ fn build(fam: usize, r: &mut FastRng, counter_rng: bool) -> Box<dyn FnMut() -> B
         _ => {
             let k = *r.pick(&[1usize, 2, 3, 10]);
             let (w, d) = *r.pick(&[(1usize, 1usize), (2, 2), (16, 4), (272, 3)]);
-            Box::new(move || Box::new(HeapObj { h: CMSHeap::new(k, CountMinSketch::with_params(w, d)), u: Rc::clone(&u), k }))
+            // sometimes the heap is created on a sketch that has already counted data: nothing has been
+            // added to the heap itself, so it must be empty
+            let warm = r.chance(0.3);
+            Box::new(move || {
+                let mut cms = CountMinSketch::with_params(w, d);
+                if warm {
+                    for x in 0..20u64 {
+                        cms.add(&x);
+                    }
+                }
+                Box::new(HeapObj { h: CMSHeap::new(k, cms), u: Rc::clone(&u), k, warm })
+            })
         }
     }
 }
@@ -562,6 +582,9 @@ fn clear_test(ctx: &Ctx, i: usize, rep: &mut Report) {
         let mut f = mk();
         if !s.is_empty() {
             return Some(("C19/is_empty/not-empty-after-clear".into(), format!("is_empty() is false right after clear() ({} pre-clear operations)", pre_n)));
+        }
+        if !s.fresh_comparable() {
+            return None;
         }
         let (os, of) = (s.obs(), f.obs());
         if os != of {
